@@ -82,6 +82,67 @@ pub fn lengths(cx: &mut Ctx, args: &Args, rng: &mut Rng) -> i32 {
     0
 }
 
+/// `desrel` (C05): DES / Triple-DES key relations, observed through ordinary events; the specification's key class
+/// (Catalogue!Class: parity bits dropped, key and complemented key share a class with complemented blocks, EDE with
+/// adjacent equal parts collapses to single DES, two-key forms are three-key forms with the first part repeated)
+/// puts the related instances into one learned permutation.
+pub fn desrel(cx: &mut Ctx, args: &Args, rng: &mut Rng) -> i32 {
+    let n = args.num("keys", 6) as usize;
+    let ty = |cx: &Ctx, n: &str| cx.ty(n).unwrap();
+    let (des, ede2, ede3, eee2, eee3) = (ty(cx, "Des"), ty(cx, "TdesEde2"), ty(cx, "TdesEde3"), ty(cx, "TdesEee2"), ty(cx, "TdesEee3"));
+    let compl = |k: &[u8]| -> Vec<u8> { k.iter().map(|b| !b).collect() };
+    let parity = |k: &[u8], m: u64| -> Vec<u8> { k.iter().enumerate().map(|(i, b)| b ^ ((m >> (i % 64)) & 1) as u8).collect() };
+    for _ in 0..n {
+        cx.reset("desrel");
+        let k1 = rng.bytes(8);
+        let k2 = rng.bytes(8);
+        let k3 = rng.bytes(8);
+        let probes: Vec<Vec<u8>> = vec![rng.bytes(8), rng.bytes(8), vec![0u8; 8]];
+        let mut all: Vec<(u64, Box<dyn Inst>, bool)> = Vec::new(); // (id, inst, complemented?)
+        let mut mk = |cx: &mut Ctx, ti: usize, key: Vec<u8>, c: bool, all: &mut Vec<(u64, Box<dyn Inst>, bool)>| {
+            if let Some((id, i)) = cx.construct(ti, "slice", &key, "relation") {
+                all.push((id, i, c));
+            }
+        };
+        let cat = |a: &[u8], b: &[u8]| [a, b].concat();
+        let cat3 = |a: &[u8], b: &[u8], c: &[u8]| [a, b, c].concat();
+        // single DES: key, parity variant, complement, complement with other parity
+        mk(cx, des, k1.clone(), false, &mut all);
+        mk(cx, des, parity(&k1, rng.next()), false, &mut all);
+        mk(cx, des, compl(&k1), true, &mut all);
+        mk(cx, des, parity(&compl(&k1), rng.next()), true, &mut all);
+        // EDE with all parts equal is single DES; with adjacent equal parts it collapses too
+        mk(cx, ede3, cat3(&k1, &k1, &k1), false, &mut all);
+        mk(cx, ede3, cat3(&k2, &k2, &k1), false, &mut all);
+        mk(cx, ede3, cat3(&k1, &parity(&k3, rng.next()), &k3), false, &mut all);
+        mk(cx, ede2, cat(&k1, &parity(&k1, rng.next())), false, &mut all);
+        // two-key forms = three-key forms with the first part repeated; parity variants; complements
+        mk(cx, ede2, cat(&k1, &k2), false, &mut all);
+        mk(cx, ede3, cat3(&k1, &k2, &parity(&k1, rng.next())), false, &mut all);
+        mk(cx, ede3, compl(&cat3(&k1, &k2, &k1)), true, &mut all);
+        mk(cx, eee2, cat(&k1, &k2), false, &mut all);
+        mk(cx, eee3, cat3(&parity(&k1, rng.next()), &k2, &k1), false, &mut all);
+        mk(cx, eee2, compl(&cat(&k1, &k2)), true, &mut all);
+        mk(cx, ede3, cat3(&k1, &k2, &k3), false, &mut all);
+        mk(cx, ede3, compl(&cat3(&k1, &k2, &k3)), true, &mut all);
+        mk(cx, eee3, cat3(&k1, &k2, &k3), false, &mut all);
+        mk(cx, eee3, compl(&cat3(&k1, &k2, &k3)), true, &mut all);
+        for (id, i, c) in &all {
+            for p in &probes {
+                // complemented instances are observed on the complemented probes, so the related points coincide
+                let b = if *c { compl(p) } else { p.clone() };
+                cx.one(*id, i.as_ref(), Dir::Enc, Shape::B2b, &b);
+                cx.one(*id, i.as_ref(), Dir::Dec, Shape::B2b, &b);
+            }
+        }
+        for (id, i, _) in all {
+            cx.drop_inst(id, i);
+        }
+        cx.end();
+    }
+    0
+}
+
 const DES_WEAK: [[u8; 8]; 64] = include!("des_weak.in");
 
 fn weak_ev(cx: &mut Ctx, ti: usize, key: &[u8], kc: &str) {
